@@ -125,9 +125,9 @@ func cmdCheck(args []string) {
 		os.Exit(2)
 	}
 	t0 := time.Now()
-	timeout := 10
+	timeout := 25
 	if *tier == "thorough" {
-		timeout = 60
+		timeout = 120
 	}
 	outDir := filepath.Join("/verif/out", *prop)
 	os.RemoveAll(outDir)
